@@ -22,7 +22,8 @@ RULE_TEXT = ("C03-V sibling agreement of the conversion impls in value.rs, arm b
              "C03-A (witness interfaces) every generated arm: guard args.len() != n (n = declared parameters) -> "
              "UnexpectedNumberOfParameters with nothing else; otherwise args.get(j).try_into()? for j = 0..n-1 in order, "
              "all before the handler call whose operands they are. C03-N no Result of push/try_into/from_str_radix/parse "
-             "is discarded; the argument vector's overflow is reported.")
+             "is discarded; the argument vector's overflow is reported."
+             " C03-PR: the contracts of the parser combinators the skeleton builds on are read from their bodies - satisfy (accept first byte iff pred / soft error / Incomplete on empty), take_while (never fails; longest prefix, position() form or counting-loop form), optional (never fails; Some(value) or input untouched), tag(b) = satisfy(== b). C03-C12I: the Incomplete discipline of the data recognisers (rule C12-I).")
 
 V = "microscpi::value::Value::"
 E = "microscpi::error::Error::"
@@ -40,6 +41,11 @@ def run(ck):
     rule_G(ck, lib)
     rule_N(ck, lib)
     rule_A(ck)
+    # a literal that is only partly there (a block or string cut by a read boundary) is reported Incomplete, never
+    # rejected or accepted short: byte-for-byte delivery under streaming (the rule of C12, necessary here as well)
+    import c12
+    with ck.under("C12-", "C03-C12"):
+        c12.rule_I(ck, lib, skeleton.Skeleton(ck, lib))
 
 
 def impl_fn(lib, self_ty, target):
